@@ -6,6 +6,7 @@
 #               layouts: which fields, in which order, each as string / mpint; the key object is a stub whose parameters are
 #               symbolic, and the encoding of ONE mpint is abstracted (ComposerBinary.compose_ssh_mpint enters by the
 #               contract "appends MP(value)", MP an uninterpreted function of the integer; C11 is about MP itself)
+#   certs       K6 of the OpenSSH certificate parameter block (PROTOCOL.certkeys field order and encodings), compose direction
 import z3
 
 from pyvc import values as V, engine as E, interp as I, ops, vc
@@ -20,7 +21,7 @@ ASSUMPTIONS = common.ASSUMPTIONS + [
 ]
 UNCOVERED = [
     'binary packet layer: the compose direction is covered (packet units: payload an arbitrary byte string); the round trip of whole SSH records (parse of the message variants incl. KEXINIT) exceeds the exploration budget',
-    'KEXINIT is covered at the message level only (field order and framing with the name-lists used through their class contracts; K5 re-serialisation); DH (group) exchange REPLY messages (host key inside), the parse direction of DISCONNECT (utf-8 text), banner grammar (text layer), OpenSSH certificates and X.509 chains: K6 not stated (K3 of the certificate classes is in the thorough tier of C01)',
+    'KEXINIT is covered at the message level only (field order and framing with the name-lists used through their class contracts; K5 re-serialisation); DH (group) exchange REPLY messages (host key inside), the parse direction of DISCONNECT (utf-8 text), banner grammar (text layer), X.509 chains: K6 not stated; OpenSSH certificates: K6 of the parameter block only (checks/sshcert.py: compose direction, nested structures through their class contracts); K3 of the certificate classes is in the thorough tier of C01',
     'the parse direction of the host key blobs (external PublicKey objects)',
 ]
 BOUNDED = ['name-lists with at most 1 name in the symbolic vector objects (the names themselves are unbounded text)']
@@ -245,6 +246,86 @@ def packet_unit(cls):
                 functions=['SshRecordBase.compose'])
 
 
+def packet_parse_unit(cls):
+    """the read direction of RFC 4253 6: a buffer that IS a packet as specified -- uint32 packet_length, byte padding_length,
+    payload, padding -- with 4..255 padding bytes, a total that is a multiple of 8 and within what every implementation
+    must accept (6.1: payload <= 32768, total <= 35000) is accepted, consumed entirely, and yields the message the payload
+    encodes (the message enters by its class contract: parsing exactly the bytes an abstract message composed to gives it back)"""
+    def thunk():
+        from spec.wire import cat, u8, u32
+        P = E.cur()
+        P.top_class = cls
+        P.nested_memo = []
+        vcls = cls._get_variant_class()
+        payload, facts = V.base_seq('payload', 'bytearray')
+        for f in facts:
+            P.assume(f)
+        padding, facts = V.base_seq('padding', 'bytes')
+        for f in facts:
+            P.assume(f)
+        total = 5 + payload.n + padding.n
+        P.assume(z3.And(padding.n >= 4, padding.n <= 255, total % 8 == 0, payload.n >= 1, payload.n <= 32768, total <= 35000))
+        P.inputs.update(payload=payload, padding=padding)
+        from contracts import nested as _nested
+        msg = _nested.abstract_instance(vcls)                # typed as the common base of the variant's message classes
+        msg.f['_abs_compose'] = payload
+        P.__dict__.setdefault('abs_composed', []).append((vcls, msg, payload))
+        buf = cat(u32(1 + payload.n + padding.n), u8(padding.n), payload, padding)
+        out = vc.outcome_of(lambda: I.call(cls.parse_immutable, [buf], {}))
+        e1.record_path_fact(P, 'packet (read): a packet as specified, within the sizes RFC 4253 6.1 obliges every implementation to '
+                            'process, is accepted%s' % ('' if out.kind == 'ret' else ' (raised %s)' % out.value.cls.__name__), out.kind == 'ret')
+        if out.kind != 'ret':
+            return
+        o, n = out.value
+        P.oblige('packet (read): the whole packet is consumed', ops.as_int(n) == buf.n)
+        vc.oblige_equal(P, 'packet (read): the message is the one the payload encodes', I.getattr_(o, 'packet'), msg)
+
+    def native(seed=0, hints=()):
+        import struct
+        from cryptoparser.ssh import subprotocol as SP
+
+        def message(size):
+            """a message of this variant whose encoding has (about) `size` octets"""
+            if cls.__name__ == 'SshRecordKexDHGroup':
+                return SP.SshDHGroupExchangeGroup(bytes(max(size - 10, 0)), b'\x02')
+            if cls.__name__ == 'SshRecordKexDH':
+                return SP.SshDHKeyExchangeInit(bytes(max(size - 5, 0)))
+            from checks import kexinit
+            o = SP.SshKeyExchangeInit.parse_exact_size(kexinit.sample_bytes())
+            short = len(kexinit.sample_bytes())
+            if size > short + 2:
+                o.kex_algorithms.append('x' * (size - short - 1) if size - short - 1 > 0 else 'x')
+            return o
+        for size in (20, 100, 255, 256, 4096, 32759, 32760, 32767, 32768):
+            try:
+                m = message(size)
+                body = bytes(m.compose())
+            except Exception:
+                continue
+            if len(body) > 32768:
+                continue
+            pad = 8 - (len(body) + 5) % 8
+            pad += 8 if pad < 4 else 0
+            w = struct.pack('!IB', 1 + len(body) + pad, pad) + body + bytes(pad)
+            call = '%s.parse_immutable(<packet with a payload of %d octets, %d octets in all>)' % (cls.__name__, len(body), len(w))
+            try:
+                o, n = cls.parse_immutable(w)
+            except Exception as ex:
+                return dict(reproduced=True, call=call, expected='accepted', observed=repr(ex)[:160], key='packet read')
+            if n != len(w) or o.packet != m:
+                return dict(reproduced=True, call=call, expected='the message, %d consumed' % len(w), observed='%r, %d' % (type(o.packet).__name__, n), key='packet read')
+        return dict(reproduced=False)
+
+    def run():
+        e2.setup()
+        from contracts import nested
+        nested.ABSTRACT_DISABLED = False
+        nested.K3_CLAUSE = True
+        return vc.run_unit(cls.__name__ + '-read', thunk, max_paths=200)
+    return Unit('packet-read/%s' % common.class_key(cls), run, replay=lambda inputs: native(0), search=native, clause='binary packet (read)',
+                functions=['SshRecordBase._parse'])
+
+
 def _units_body(tier, seed):
     from cryptoparser.ssh import key as SK
     from checks import foundation
@@ -259,12 +340,15 @@ def _units_body(tier, seed):
     from cryptoparser.ssh import record as SR
     for cls in (SR.SshRecordInit, SR.SshRecordKexDH, SR.SshRecordKexDHGroup):
         out.append(packet_unit(cls))
+        out.append(packet_parse_unit(cls))
     dm = by_name['SshDisconnectMessage']
     out.append(Unit('K6-compose-only/%s' % common.class_key(dm), e2.compose_only_unit(dm), replay=k6family.replay_for(dm), clause='K6',
                     functions=['SshDisconnectMessage.compose', 'spec.ssh.disconnect']))
     from checks import kexinit
     out.append(kexinit.k6_unit())
     out.append(kexinit.k5_unit())
+    from checks import sshcert
+    out += sshcert.units()
     from checks import tables as _tables
     _table_units = _tables.units(_tables.SSH)
     return out + foundation.units(tier, seed) + _table_units
